@@ -73,6 +73,42 @@ def run_variant(args: Tuple[str, Dict, str]) -> Dict:
         shutil.rmtree(tmp, ignore_errors=True)
 
 
+def run_seeded(args: Tuple[str, str, str]) -> Dict:
+    """Apply an independently written breaking change (/verif/seeded/<id>/patch.diff) to a scratch copy."""
+    repo_root, sid, prop = args
+    tmp = tempfile.mkdtemp(prefix="cubeverif_seed_")
+    try:
+        shutil.copytree(os.path.join(repo_root, "src"), os.path.join(tmp, "src"))
+        patch = os.path.join(VERIF_ROOT, "seeded", sid, "patch.diff")
+        p = subprocess.run(["git", "apply", "--unsafe-paths", "-p1", patch], cwd=tmp, capture_output=True, text=True)
+        if p.returncode != 0:
+            return {"id": "seeded/" + sid, "prop": prop, "kind": "B", "status": "skipped", "why": "patch does not apply to the current tree"}
+        env = dict(os.environ, CUBEVERIF_SELFTEST="1")
+        p = subprocess.run([sys.executable, "-m", "cubeverif.cli", prop, "quick", "--repo", tmp], cwd=VERIF_ROOT, env=env, capture_output=True, text=True, timeout=300)
+        fired = [l for l in p.stdout.splitlines() if l.startswith("FINDING")]
+        status = {0: "silent", 1: "fired", 2: "analysis-error"}.get(p.returncode, f"rc{p.returncode}")
+        return {"id": "seeded/" + sid, "prop": prop, "kind": "B", "status": status, "rules": sorted({f.split()[1] for f in fired})[:4], "suite_notices": False}
+    finally:
+        shutil.rmtree(tmp, ignore_errors=True)
+
+
+def seeded_for(prop: str) -> List[str]:
+    d = os.path.join(VERIF_ROOT, "seeded")
+    out = []
+    if os.path.isdir(d):
+        for sid in sorted(os.listdir(d)):
+            meta = os.path.join(d, sid, "meta.json")
+            try:
+                import json
+
+                m = json.load(open(meta))
+            except Exception:
+                continue
+            if m.get("breaks_property") == prop:
+                out.append(sid)
+    return out
+
+
 def run_for_property(repo_root: str, prop: str, workers: int = 16) -> Dict:
     jobs = []
     for v in V:
@@ -83,6 +119,8 @@ def run_for_property(repo_root: str, prop: str, workers: int = 16) -> Dict:
     results: List[Dict] = []
     with concurrent.futures.ThreadPoolExecutor(max_workers=workers) as ex:
         for r in ex.map(run_variant, jobs):
+            results.append(r)
+        for r in ex.map(run_seeded, [(repo_root, sid, prop) for sid in seeded_for(prop)]):
             results.append(r)
     b = [r for r in results if r["kind"] == "B" and r["status"] != "skipped"]
     n = [r for r in results if r["kind"] == "N" and r["status"] != "skipped"]
